@@ -241,6 +241,8 @@ theorem C07_on_tree : Facts.processWriteSingleBatchCommit = true ∧ Facts.versi
     Facts.leaderReplayStartsAfterDbCommitOffset = true ∧ Facts.followerApplyStartsAfterCommitOffset = true ∧
     Facts.leaderReplayUsesWrapperCallbackAndEntryArgs = true ∧ Facts.followerApplyUsesWrapperCallbackAndEntryArgs = true ∧
     Facts.followerApplyResetsPooledEntry = true ∧ Facts.pebbleRunsWithoutItsOwnWal = true ∧
-    Facts.walReaderServesOnlySyncedEntries = true ∧ Facts.trackerCompletesWaitersUnderLock = true := by decide
+    Facts.walReaderServesOnlySyncedEntries = true ∧ Facts.trackerCompletesWaitersUnderLock = true ∧
+    -- a new leader applies its log only after the whole of it is quorum-committed (an election that fails leaves the database alone)
+    Facts.becomeLeaderOnlyFromFencedSameTerm = true := by decide
 
 end Oxia.C07
